@@ -409,6 +409,35 @@ def run(chk: Check) -> None:
             chk.fail("stream-overread", f"{raw.consumed} bytes consumed with max_content_length={mcl}", {"body_len": len(body), "mcl": mcl})
         if res == "ok" and (with_len or terminated) and form != _group(parse_qsl(body.decode(), keep_blank_values=True)):
             chk.fail("limits-change-result", "request form differs from the plain parse", {"body": body.hex(), "mcl": mcl})
+    # the limits do not depend on what the request DECLARES: FormDataParser.parse with every content_length (absent, 0, smaller
+    # than the limit, exact, larger) on a stream that delivers the whole body (a server-terminated input): a non-file field
+    # above max_form_memory_size is refused whatever was declared, and a parse that succeeds equals the unlimited one
+    for _ in range(150 if quick else 3000):
+        mm = rng.choice([5, 20, 100])
+        fsize = rng.choice([0, mm - 1, mm, mm + 1, mm * 3])
+        kind = rng.choice(["multipart", "urlencoded"])
+        if kind == "multipart":
+            body = b"--b\r\nContent-Disposition: form-data; name=\"a\"\r\n\r\n" + b"x" * fsize + b"\r\n--b--\r\n"
+            mt, opts = "multipart/form-data", {"boundary": "b"}
+        else:
+            body = b"a=" + b"x" * fsize
+            mt, opts = "application/x-www-form-urlencoded", {}
+        for clen in (None, 0, 1, mm - 1, mm, len(body), len(body) + 10):
+            st = SchedStream(body, [rng.choice([0, 3, 16]) for _ in range(3)])
+            try:
+                _, form, _ = FormDataParser(max_form_memory_size=mm, silent=False).parse(st, mt, clen, dict(opts))
+                res = "ok " + repr(list(form.items(multi=True)))
+            except RequestEntityTooLarge:
+                res = "413"
+            except Exception as e:  # noqa: BLE001
+                res = "X:" + type(e).__name__
+            over = fsize > mm if kind == "multipart" else len(body) > mm
+            chk.case(("declared-indep", kind, mm, fsize, clen), True)
+            if over and res != "413":
+                chk.fail("limit-depends-on-declared-length", f"{kind} body with a {fsize}-byte field under max_form_memory_size={mm}, "
+                         f"content_length={clen}: {res[:80]} (expected RequestEntityTooLarge whatever is declared)",
+                         {"kind": kind, "mm": mm, "field_size": fsize, "content_length": clen})
+
     # declared lengths of every SPELLING a server may pass through: huge values (more digits than any machine integer), zero
     # padding, surrounding blanks: a declared length above max_content_length is refused (413) before a byte is read,
     # whatever its width; the declared value is the integer the digits denote (C09_content_length_digits)
